@@ -390,7 +390,10 @@ def check_optstrings(ctx):
              ("suppress_warnings", "myst.header,\nmyst.xref_missing\n", ["myst.header", "myst.xref_missing"]),
              ("enable_extensions", "deflist, tasklist", {"deflist", "tasklist"}), ("disable_syntax", "table , emphasis", ["table", "emphasis"]),
              ("url_schemes", "http, ftp", {"http": None, "ftp": None}), ("fence_as_directive", "mermaid, dot", {"mermaid", "dot"}),
-             ("number_code_blocks", "python, c", ["python", "c"])]
+             ("number_code_blocks", "python, c", ["python", "c"]),
+             # the YAML-dictionary spelling of url_schemes in block style (no braces) and as a multi-line value
+             ("url_schemes", "gh: 'https://g/{{path}}'", {"gh": "https://g/{{path}}"}),
+             ("url_schemes", "http: null\ngh: 'https://g/{{path}}'\n", {"http": None, "gh": "https://g/{{path}}"})]
     n = 0
     for name, text, val in cases:
         n += 1
